@@ -64,3 +64,18 @@ package geom
 //@   loop 0 invariant 0 <= i && i <= n && n == len(m.polys) && (cap(polys) == 0 || fresh(polys))
 //@   loop 0 invariant MPolyInv(m)
 //@   loop 0 invariant forall k :: 0 <= k && k < len(polys) ==> PolyInv(polys[k])
+
+// ---- Interpolate (C17, C20): total for every fraction, no ordinate invented ----
+//@ pred LInterpInv(l) = SeqInv(l.seq) && NPts(l.seq) >= 1 && len(l.cumulative) == NPts(l.seq) - 1
+
+//@ func newLinearInterpolator
+//@   requires SeqInv(seq) && NPts(seq) >= 1
+//@   ensures same(result.seq, seq) && LInterpInv(result) && fresh(result.cumulative)
+//@   loop 0 invariant 0 <= i && i <= n - 1 && n == NPts(seq) && len(cumulative) == n - 1 && fresh(cumulative) && offset(cumulative) == 0
+
+//@ func linearInterpolator.interpolate
+//@   requires LInterpInv(l)
+//@   ensures result.full && result.coords.Type == l.seq.ctype
+
+//@ func LineString.InterpolatePoint
+//@   ensures result.coords.Type == s.seq.ctype && (result.full <==> NPts(s.seq) > 0)
